@@ -1,20 +1,28 @@
 import DriverLib.Util
 -- BEGIN-GENERATED-IMPORTS
 import DriverLib.C01
+import DriverLib.C04
+import DriverLib.C08
+import DriverLib.C10
 import DriverLib.C11
 import DriverLib.C12
 import DriverLib.C13
 import DriverLib.C14
+import DriverLib.C15
 -- END-GENERATED-IMPORTS
 open Lean Drv
 
 def handlers : List (String → Json → Option R) := [
 -- BEGIN-GENERATED-HANDLERS
   Drv.C01.handle,
+  Drv.C04.handle,
+  Drv.C08.handle,
+  Drv.C10.handle,
   Drv.C11.handle,
   Drv.C12.handle,
   Drv.C13.handle,
-  Drv.C14.handle
+  Drv.C14.handle,
+  Drv.C15.handle
 -- END-GENERATED-HANDLERS
 ]
 
